@@ -283,7 +283,8 @@ def _c15_post(run, op, ctx, st):
         mp = storage.map()
         try:
             for blk in range(0, len(raw), bs):
-                expect(bytes(mp.read(blk)) == raw[blk : blk + bs], "C15: memory-mapped reader returns a different block", blk)
+                got_ = mp.read(blk)
+                expect(got_ is not None and bytes(got_) == raw[blk : blk + bs], "C15: memory-mapped reader returns a different block (or none)", {"block": blk, "got": None if got_ is None else "other bytes"})
             expect(mp.read(len(raw)) is None, "C15: memory-mapped reader past the end", len(raw))
         finally:
             mp.release()
@@ -442,6 +443,10 @@ def job_interleave(spec, res):
     seed = spec["seed"]
     r = random.Random(seed)
     alpha = (b"a", b"b", b"c")
+    if seed % 3 == 2:
+        # long stems that agree on their first block: the order of insertion (hence the
+        # schedule) decides the shape of the sibling trees
+        alpha = (b"S" * 80 + b"c", b"S" * 80 + b"f", b"S" * 80 + b"m", b"a", b"b")
     YT = _yielding_traph_class()
     orig_sy = tis.TraphIteratorState.should_yield
     tis.TraphIteratorState.should_yield = lambda self, f=1000: True
@@ -633,6 +638,8 @@ def job_torn(spec, res):
             fp_all |= set(l for n, l in t.pages_iter())
             fl_all |= set(t.links_iter())
             op = r.choice(["page", "links", "batch", "create", "pages"])
+            if seed % 4 == 2 and i < 3:
+                op = "links"  # (A,B), then (A,C), then (A,C) again: see below
             if with_clear:
                 nops_ = spec.get("nops", 4)
                 if i == 0:
@@ -652,6 +659,18 @@ def job_torn(spec, res):
                 t.add_pages(x[1])
             elif op == "links":
                 x = ["links", [[rand_lru(r, (1, 3), alpha), rand_lru(r, (1, 3), alpha)] for _ in range(r.randint(1, 3))]]
+                earlier = [pr for h_ in hist if h_[0] == "links" for pr in h_[1]]
+                if seed % 4 == 2 and i < 3:
+                    if i == 0:
+                        x[1] = x[1][:1]
+                    elif i == 1:
+                        x[1] = [[hist[0][1][0][0], rand_lru(r, (1, 2), alpha) + b"z|"]]
+                    else:
+                        x[1] = [list(hist[1][1][0])]
+                elif earlier and r.random() < 0.6:
+                    # a link submitted again in a later request, and a fresh link from the same source
+                    e_ = r.choice(earlier)
+                    x[1] = [[e_[0], rand_lru(r, (1, 2), alpha)], list(e_)] if r.random() < 0.5 else [list(e_)]
                 t.add_links([tuple(p) for p in x[1]])
             elif op == "batch":
                 x = ["batch", [[rand_lru(r, (1, 3), alpha), [rand_lru(r, (1, 3), alpha) for _ in range(r.randint(0, 3))]]]]
@@ -665,8 +684,10 @@ def job_torn(spec, res):
             hist.append(x)
         # what the completed requests reported at any request boundary (with a clear()
         # in the history the reference is the union over the boundaries)
-        fp = fp_all | set(l for n, l in t.pages_iter())
-        fl = fl_all | set(t.links_iter())
+        fp = set(l for n, l in t.pages_iter())
+        fl = set(t.links_iter())
+        if with_clear:
+            fp, fl = fp | fp_all, fl | fl_all
         t.close()
         shutil.rmtree(d, ignore_errors=True)
     finally:
@@ -958,7 +979,7 @@ def job_tokens(spec, res):
         for i in (0, 1, 7, 123456):
             tok = build_pagination_token(i, path)
             res["op"] = {"i": i, "path": str(path)}
-            expect(parse_pagination_token(tok) == (i, path), "C09: token does not round-trip", [i, str(path), tok])
+            expect(parse_pagination_token(tok) == (i, path), "%s: token does not round-trip" % spec["prop"], [i, str(path), tok])
             n += 1
     for _ in range(300):
         digs = [r.choice([1, 2, 3]) for _ in range(r.randint(0, 60))]
